@@ -263,6 +263,7 @@ class Context:
     def call(
         __self,  # noqa: B902
         __obj: t.Callable[..., t.Any],
+        /,
         *args: t.Any,
         **kwargs: t.Any,
     ) -> t.Union[t.Any, "Undefined"]:
@@ -736,7 +737,7 @@ class Macro:
 
     @internalcode
     @pass_eval_context
-    def __call__(self, *args: t.Any, **kwargs: t.Any) -> str:
+    def __call__(self, /, *args: t.Any, **kwargs: t.Any) -> str:
         # This requires a bit of explanation,  In the past we used to
         # decide largely based on compile-time information if a macro is
         # safe or unsafe.  While there was a volatile mode it was largely
